@@ -145,6 +145,16 @@ class MethodMixin(object):
             if args:
                 state.regs.pop((reg, args[0]), None)
             return [(state, ("call", "." + name, (reg,) + tuple(args), ()))]
+        if name == "get" and args and (reg[1][1], reg[2]) in self.registries:
+            # R.get(k[, default]): the object when k is in the registry
+            out = []
+            member = ("cmp", "in", args[0], reg)
+            for (s2, b) in self.split(member, state, frame, node):
+                if b:
+                    out.append((s2, self.registry_get(reg, args[0], s2, frame, node)))
+                else:
+                    out.append((s2, args[1] if len(args) > 1 else NONE))
+            return out
         if name in ("get", "setdefault"):
             if name == "setdefault":
                 self.ev(state, "reg_set", frame, node, reg=reg, key=args[0],
@@ -189,6 +199,16 @@ class MethodMixin(object):
             raise AnalysisError("execute() without SQL at %s:%d" % site[:2])
         sqlt = args[0]
         if not (is_const(sqlt) and isinstance(sqlt[1], str)):
+            from .terms import mentions
+            if mentions(sqlt, lambda x: x[0] == "call" and
+                        x[1].endswith("resource_string")):
+                # statements taken from a packaged .sql script and executed one
+                # by one: the script text itself is analysed by the rules
+                self.ev(state, "sql_dynamic", frame, node, db=dbn, handle=recv,
+                        sql=sqlt, params=tuple(args[1:]))
+                state.dirty = state.dirty | {dbn}
+                state.wrote = True
+                return [(state, ("cursor", site))]
             raise AnalysisError("non-literal SQL at %s:%d (%r)" % (site[0], site[1], sqlt[:2]))
         try:
             stmt = parse_sql(sqlt[1])
